@@ -172,13 +172,37 @@ def _func_template(src, recv, name, path):
 
 
 def _lines(t):
+    """non-empty lines of a template, comments removed (end-of-line comments too: they are not code)"""
     out = []
     for l in t.split("\n"):
-        l = l.strip()
-        if not l or l.startswith("//"):
+        l = re.sub(r"(^|\s)//.*$", "", l).strip()
+        if not l:
             continue
         out.append(l)
     return out
+
+
+def _roles(T):
+    """The identifiers of the generated parser by ROLE, not by name: the per-iteration flag H (`for H := false; ...`),
+    the position counter P (the variable of the loop's post statement) and the prefix F of the per-field flags
+    (`var F_<Field> bool`).  Returns (H, P, F)."""
+    m = re.search(r"(?m)^\s*for (\w+) := \w+; .*; (\w+)\s*(?:\+\+|--|[-+]=.*) \{\s*$", T)
+    if not m:
+        raise XlateError("model.go: ordered loop header `for <flag> := ...; cond; <counter> post {` not found")
+    H, P = m.group(1), m.group(2)
+    m = re.search(r"(?m)^\s*var (\w+)_\{\{\$f\.Name\}\} bool\b", T)
+    if not m:
+        raise XlateError("model.go: declaration of the per-field flags `var <prefix>_{{$f.Name}} bool` not found")
+    return H, P, m.group(1)
+
+
+def _canon(t, roles):
+    """rename the role identifiers to the canonical handled / progress / handled_<Field>"""
+    H, P, F = roles
+    t = re.sub(r"\b%s_\{\{\$f\.Name\}\}" % re.escape(F), "\x01", t)
+    t = re.sub(r"\b%s\b" % re.escape(H), "\x02", t)
+    t = re.sub(r"\b%s\b" % re.escape(P), "\x03", t)
+    return t.replace("\x01", "handled_{{$f.Name}}").replace("\x02", "handled").replace("\x03", "progress")
 
 
 ORD_IF = "{{- if (eq $.Model.Ordered true)}}"
@@ -196,7 +220,8 @@ def templates(repo):
     if len(m) != 1:
         raise XlateError("model.go: IsCritical string not found")
     iscrit = m[0]
-    L = _lines(T)
+    roles = _roles(T)
+    L = _lines(_canon(T, roles))
 
     def idx(pred, start=0, what=""):
         for k in range(start, len(L)):
@@ -230,7 +255,11 @@ def templates(repo):
         raise XlateError("model.go: unordered `if handled := ...; cond {` not understood: %r" % L[b + 3])
     res["uh0"] = expr(m.group(1), set())
     res["ucond"] = expr(m.group(2), {"handled"})
-    if L[b + 5] != "switch typ {":
+    known = None        # `known := true; switch typ {...; default: known = false}; if !known { <unknown element> }`
+    m = re.match(r"^(\w+) := true$", L[b + 5])
+    if m and L[b + 6] == "switch typ {":
+        known = m.group(1)
+    elif L[b + 5] != "switch typ {":
         raise XlateError("model.go: `switch typ {` expected after the loop header, found %r" % L[b + 5])
     # case clause
     c = idx(lambda l: l == "case {{$f.TypeNum}}:", b, "case {{$f.TypeNum}}:")
@@ -254,6 +283,13 @@ def templates(repo):
     if not D or D[-1] != "}":
         raise XlateError("model.go: default clause does not end the switch")
     D = D[:-1]
+    if known is not None:
+        # the unknown-element statements live in `if !known { ... }` right after the switch; nothing else may assign `known`
+        if D[:3] != ["%s = false" % known, "}", "if !%s {" % known]:
+            raise XlateError("model.go: `%s` flag of the switch is not used as `default: %s = false }; if !%s {`" % (known, known, known))
+        if sum(1 for l in L if re.match(r"^%s\s*(:?=|\+\+|--)" % re.escape(known), l)) != 2:
+            raise XlateError("model.go: `%s` is assigned elsewhere too" % known)
+        D = D[3:]
     m = re.match(r"^if (.+) \{$", D[0]) if D else None
     if not m or len(D) < 3 or not D[1].startswith("return nil, enc.ErrUnrecognizedField{") or D[2] != "}":
         raise XlateError("model.go: default clause does not begin with the critical-type rejection: %r" % D[:3])
@@ -330,7 +366,7 @@ def templates(repo):
         s = open(os.path.join(d, fname)).read()
         t, _ = _func_template(s, recv, "GenReadFrom", fname)
         accounted.append(t)
-        ls = [l for l in _lines(t) if re.search(r"\b(progress|handled)\b", l)]
+        ls = [l for l in _lines(_canon(t, roles)) if re.search(r"\b(progress|handled)\b", l)]
         return compose([progress_stmt(l) for l in ls])
     res["seq_progress"] = field_progress("fields_sequence.go", "SequenceField")
     res["map_progress"] = field_progress("map_field.go", "MapField")
@@ -344,8 +380,8 @@ def templates(repo):
             t = mm.group(1)
             if t in accounted:
                 continue
-            for l in _lines(t):
-                if re.search(r"\b(progress|handled)\b", l):
+            for l in _lines(_canon(t, roles)):
+                if re.search(r"\b(progress|handled)\b", l) or "handled_{{$f.Name}}" in l:
                     other.append("%s: %s" % (fn, l))
     if other:
         raise XlateError("a field template touches the parse loop's `progress`/`handled` (not translated): " + "; ".join(other[:4]))
